@@ -248,6 +248,12 @@ def isort (less : Info → Info → Bool) (xs : List Info) : List Info :=
 def selectPrio (threshold : Int) (byReq : Bool) (pods : List Pod) : List Info :=
   isort (prioLess byReq) (pods.filterMap (prioInfo? threshold))
 
+/-- memoryevict.getPodEvictInfoAndSortByPriority after the repair `MemoryUsed = int64(metric)` (was
+    `int64(metric*1000)`, a copy of the CPU milli conversion): `Pod.used` carries `int64(metric*1000)`, memory
+    metrics are whole bytes, so the memory path reads `used / 1000`. -/
+def selectPrioMem (threshold : Int) (byReq : Bool) (pods : List Pod) : List Info :=
+  selectPrio threshold byReq (pods.map fun p => { p with used := Int.tdiv p.used 1000 })
+
 def selectBEMem (pods : List Pod) : List Info :=
   isort beMemLess (pods.filterMap (beInfo? (fun _ _ => 0) 1000 false))
 
